@@ -944,21 +944,31 @@ class _ExecutorManagerThread(threading.Thread):
             mp.util.debug(f"joining {len(self.processes)} processes")
             n_joined_processes = 0
             all_processes = list(self.processes.values())
+            # Number of 0.1s waits granted to the remaining workers once one
+            # of them has ended with an error code of its own.
+            patience = 50
             while True:
                 try:
                     pid, p = self.processes.popitem()
                     mp.util.debug(f"joining process {p.name} with pid {pid}")
                     # A worker that was killed during the shutdown can hold a
-                    # lock of the call queue for ever: the others then never
-                    # receive their sentinel. Do not wait for those. (A
-                    # worker that merely ends with an error code while the
-                    # others run their exit handlers is no reason to kill.)
+                    # lock of the call or result queue for ever: the others
+                    # then never receive their sentinel or never get rid of
+                    # their last result. Do not wait for those. A worker
+                    # that ended with an error code of its own may have left
+                    # through os._exit while holding such a lock, or through
+                    # a failing exit handler while the others are still
+                    # running theirs: those get some time to finish first.
                     p.join(timeout=0.1)
                     while p.is_alive():
                         if self.executor_flags.broken is not None or any(
                             (q.exitcode or 0) < 0 for q in all_processes
                         ):
                             kill_process_tree(p)
+                        elif any(q.exitcode for q in all_processes):
+                            patience -= 1
+                            if patience < 0:
+                                kill_process_tree(p)
                         p.join(timeout=0.1)
                     n_joined_processes += 1
                 except KeyError:
